@@ -5,43 +5,139 @@
 package zzsimsync
 
 import (
+	"sort"
 	"sync"
 
 	"github.com/z7zmey/php-parser/pkg/zzsim"
 )
 
 type Locker = sync.Locker
-type Map = sync.Map
+
+// rel / acq are the reserved yield points of the "sync" site class: the
+// scheduler may preempt right after a primitive was released and right before
+// one is acquired.
+func rel() { zzsim.Y(zzsim.SiteSyncRel) }
+func acq() { zzsim.Y(zzsim.SiteSyncAcq) }
+
+// Map is sync.Map (its own, precise happens-before edges are kept) with a
+// yield point behind every operation and a Range that visits basic-typed keys
+// in sorted order (sync.Map.Range follows Go map iteration order, which would
+// make runs unrepeatable).
+type Map struct{ m sync.Map }
+
+func (m *Map) Load(k interface{}) (interface{}, bool) { v, ok := m.m.Load(k); rel(); return v, ok }
+func (m *Map) Store(k, v interface{})                 { m.m.Store(k, v); rel() }
+func (m *Map) LoadOrStore(k, v interface{}) (interface{}, bool) {
+	a, l := m.m.LoadOrStore(k, v)
+	rel()
+	return a, l
+}
+func (m *Map) LoadAndDelete(k interface{}) (interface{}, bool) {
+	v, l := m.m.LoadAndDelete(k)
+	rel()
+	return v, l
+}
+func (m *Map) Delete(k interface{}) { m.m.Delete(k); rel() }
+func (m *Map) Swap(k, v interface{}) (interface{}, bool) {
+	p, l := m.m.Swap(k, v)
+	rel()
+	return p, l
+}
+func (m *Map) CompareAndSwap(k, o, n interface{}) bool {
+	r := m.m.CompareAndSwap(k, o, n)
+	rel()
+	return r
+}
+func (m *Map) CompareAndDelete(k, o interface{}) bool {
+	r := m.m.CompareAndDelete(k, o)
+	rel()
+	return r
+}
+func (m *Map) Range(f func(k, v interface{}) bool) {
+	type kv struct {
+		k, v interface{}
+		c    byte
+		n    uint64
+		s    string
+	}
+	var all []kv
+	sortable := true
+	m.m.Range(func(k, v interface{}) bool {
+		e := kv{k: k, v: v}
+		switch x := k.(type) {
+		case string:
+			e.c, e.s = 1, x
+		case int:
+			e.c, e.n = 2, uint64(int64(x))^(1<<63)
+		case int64:
+			e.c, e.n = 2, uint64(x)^(1<<63)
+		case int32:
+			e.c, e.n = 2, uint64(int64(x))^(1<<63)
+		case uint:
+			e.c, e.n = 3, uint64(x)
+		case uint64:
+			e.c, e.n = 3, x
+		case uint32:
+			e.c, e.n = 3, uint64(x)
+		default:
+			sortable = false
+		}
+		all = append(all, e)
+		return true
+	})
+	if sortable {
+		sort.SliceStable(all, func(i, j int) bool {
+			a, b := &all[i], &all[j]
+			if a.c != b.c {
+				return a.c < b.c
+			}
+			if a.n != b.n {
+				return a.n < b.n
+			}
+			return a.s < b.s
+		})
+	}
+	for _, e := range all {
+		rel()
+		if !f(e.k, e.v) {
+			break
+		}
+	}
+	rel()
+}
 
 type Mutex struct{ m sync.Mutex }
 
 func (m *Mutex) Lock() {
+	acq()
 	for !m.m.TryLock() {
 		zzsim.Blocked()
 	}
 	zzsim.Progress()
 }
 func (m *Mutex) TryLock() bool { return m.m.TryLock() }
-func (m *Mutex) Unlock()       { m.m.Unlock(); zzsim.Progress() }
+func (m *Mutex) Unlock()       { m.m.Unlock(); zzsim.Progress(); rel() }
 
 type RWMutex struct{ m sync.RWMutex }
 
 func (m *RWMutex) Lock() {
+	acq()
 	for !m.m.TryLock() {
 		zzsim.Blocked()
 	}
 	zzsim.Progress()
 }
 func (m *RWMutex) TryLock() bool { return m.m.TryLock() }
-func (m *RWMutex) Unlock()       { m.m.Unlock(); zzsim.Progress() }
+func (m *RWMutex) Unlock()       { m.m.Unlock(); zzsim.Progress(); rel() }
 func (m *RWMutex) RLock() {
+	acq()
 	for !m.m.TryRLock() {
 		zzsim.Blocked()
 	}
 	zzsim.Progress()
 }
 func (m *RWMutex) TryRLock() bool  { return m.m.TryRLock() }
-func (m *RWMutex) RUnlock()        { m.m.RUnlock(); zzsim.Progress() }
+func (m *RWMutex) RUnlock()        { m.m.RUnlock(); zzsim.Progress(); rel() }
 func (m *RWMutex) RLocker() Locker { return (*rlocker)(m) }
 
 type rlocker RWMutex
@@ -77,6 +173,9 @@ func (w *WaitGroup) Add(d int) {
 	}
 	w.m.Unlock()
 	zzsim.Progress()
+	if d < 0 {
+		rel()
+	}
 }
 func (w *WaitGroup) Done() { w.Add(-1) }
 func (w *WaitGroup) Wait() {
@@ -169,6 +268,7 @@ func (p *Pool) Get() interface{} {
 		}
 	}
 	p.m.Unlock()
+	rel()
 	if x == nil && p.New != nil {
 		x = p.New()
 	}
@@ -186,4 +286,5 @@ func (p *Pool) Put(x interface{}) {
 		p.items = append(p.items, x)
 	}
 	p.m.Unlock()
+	rel()
 }
